@@ -140,3 +140,59 @@ def polarity_guard(cfg, n, pred):
         if pred(t):
             return (t, pol, gn)
     return None
+
+
+# structural patterns with metavariables (see mstatic/pattern.py)
+from mstatic.pattern import P, find as pfind, has as phas  # noqa: E402,F401
+
+
+def writes_key(fnode, key):
+    """The function stores a value under the constant dict key `key`
+    (dict literal or subscript assignment)."""
+    for n in own_nodes(fnode):
+        if isinstance(n, ast.Dict):
+            if any(isinstance(k, ast.Constant) and k.value == key
+                   for k in n.keys):
+                return True
+        if isinstance(n, ast.Assign):
+            for t in n.targets:
+                if isinstance(t, ast.Subscript) and \
+                        isinstance(t.slice, ast.Constant) and \
+                        t.slice.value == key:
+                    return True
+    return False
+
+
+def reads_key(fnode, key, base_attr=None):
+    """The function reads constant key `key` (x[key] / x.get(key)),
+    optionally from an attribute named base_attr."""
+    for n in own_nodes(fnode):
+        base = None
+        if isinstance(n, ast.Subscript) and \
+                isinstance(n.slice, ast.Constant) and n.slice.value == key \
+                and isinstance(n.ctx, ast.Load):
+            base = n.value
+        if isinstance(n, ast.Call) and isinstance(n.func, ast.Attribute) \
+                and n.func.attr == 'get' and n.args and \
+                isinstance(n.args[0], ast.Constant) and \
+                n.args[0].value == key:
+            base = n.func.value
+        if base is not None:
+            if base_attr is None:
+                return True
+            if isinstance(base, ast.Attribute) and base.attr == base_attr:
+                return True
+    return False
+
+
+def lambda_names(fnode, pattern):
+    """Local names bound to a lambda whose body matches pattern."""
+    from mstatic.pattern import match, P as _P
+    pat = _P(pattern) if isinstance(pattern, str) else pattern
+    out = set()
+    for n in own_nodes(fnode):
+        if isinstance(n, ast.Assign) and isinstance(n.value, ast.Lambda) and \
+                len(n.targets) == 1 and isinstance(n.targets[0], ast.Name):
+            if match(pat, n.value.body) is not None:
+                out.add(n.targets[0].id)
+    return out
